@@ -89,7 +89,7 @@ func c01Run(cfg c01Cfg, sh c01Shape) (r c01Result) {
 		}
 		switch sh.EExt {
 		case 1:
-			e.Exts = []pkix.Extension{world.ReasonExt(1 + i%6)}
+			e.Exts = []pkix.Extension{world.ReasonExt([]int{1, 8, 2, 6, 3, 10, 4, 9, 5, 0}[i%10])} // every reason code, also removeFromCRL (8) and certificateHold (6)
 		case 2:
 			e.Exts = []pkix.Extension{world.ReasonExt(1), world.InvalidityDateExt(vsched.Epoch.Add(-200 * time.Hour))}
 		}
